@@ -4,7 +4,8 @@ from gens import *
 LEVEL = 'model_checking'
 
 def draws(rng, k, fail=()):
-    return ','.join('%d:%s' % (0 if i in fail else 1, hx(pattern(rng, 32, 'rand'))) for i in range(k))
+    # 0 = the source fails, 1 = healthy, 2 = interrupted once (EINTR) and then healthy (only the sysrng flavour tells 2 from 1)
+    return ','.join('%d:%s' % (0 if i in fail else (2 if i % 5 == 3 else 1), hx(pattern(rng, 32, 'rand'))) for i in range(k))
 
 def gen(c):
     rng = c.rng; th = c.tier == 'thorough'
@@ -23,9 +24,9 @@ def gen(c):
                 lines.append('prng.feed obj=1 in=%s null_if_empty=%d' % (hx(pattern(rng, rng.choice([0, 1, 7, 8, 9, 32, 50]))), rng.randrange(2))); cost += 0.4
             elif a == 'reseed': lines.append('prng.reseed obj=1'); cost += 0.4
             elif a == 'save':
-                lines.append('prng.save obj=1 size=%d wres=%d erase_size=%d page=%d' % (rng.choice([64, 32, 31, 0, 4096]), rng.choice([32, 32, 31, 0, -1]), rng.choice([0, 4096]), rng.choice([1, 32, 64, 256]))); cost += 0.6
+                lines.append('prng.save obj=1 size=%d wres=%d erase_size=%d page=%d' % (rng.choice([64, 32, 31, 0, 4096]), rng.choice([32, 32, 31, 0, -1]), rng.choice([0, 4096]), rng.choice([1, 32, 64, 256])) + ' partial=%d' % rng.randrange(2)); cost += 0.6
             elif a == 'load':
-                lines.append('prng.load obj=1 size=%d rres=%d wres=%d page=%d content=%s' % (rng.choice([64, 32, 16]), rng.choice([32, 32, 31, 0, -1]), rng.choice([32, -1, 5]), rng.choice([1, 32, 64, 256]), hx(pattern(rng, 40, 'rand')))); cost += 1.2
+                lines.append('prng.load obj=1 erase_size=%d partial=%d size=%d rres=%d wres=%d page=%d content=%s' % (rng.choice([0, 4096]), rng.randrange(2), rng.choice([64, 32, 16]), rng.choice([32, 32, 31, 0, -1]), rng.choice([32, -1, 5]), rng.choice([1, 32, 64, 256]), hx(pattern(rng, 40, 'rand')))); cost += 1.2
             elif a == 'poke':
                 lines.append('prng.poke obj=1 counter=%d' % rng.choice([16383, 16384, 16385, 16000, 40000, 0])); cost += 0.1
         lines.append('prng.free obj=1')
@@ -63,6 +64,9 @@ def run(c):
                       'the symbolic model scales the 16384-byte reseed limit to 24 bytes; the real limit is reached by positioning the counter field and by honest 17 x 1024-byte fetches',
                       'save/load status values as documented in random.h: 0 saved/loaded, -1 otherwise']
     c.tv(gen(c), 'rel', 'prng', max_cost=30.0)
+    # the library's own entropy back end (ascon-trng-dev-random.c) under the same histories, getrandom() scripted:
+    # failing calls (and a source that recovers), calls interrupted once
+    c.tv(gen(c), 'sysrng', 'prngsys', max_cost=30.0)
     if c.tier == 'thorough':
         c.tv(gen(c), 'c32', 'prng', max_cost=30.0)
     c.cov['rule'] = 'random histories of 3..8 operations over {fetch, feed, reseed, save, load} with failing draws / storage results, plus threshold, status and NULL-state cases; distinct = cases'
